@@ -367,6 +367,36 @@ func runCheck(prop, tier string, jobFilter string, workers int, seed int64) int 
 			}
 		}
 	}
+	// differential validation of the executor and its models: witness inputs of jobs that
+	// reached their end are replayed natively; the native run must not fail any assertion
+	// the engine discharged (counted in traces_validated_against_impl)
+	gDiffTraces, gDiffMismatch = 0, nil
+	if exit == 0 {
+		maxW := 2
+		if tier == "thorough" {
+			maxW = 6
+		}
+		done := map[string]bool{}
+		for _, r := range results {
+			if r == nil || r.Witness == nil || len(r.Incon) > 0 || done[r.Job.Harness] || len(done) >= maxW {
+				continue
+			}
+			done[r.Job.Harness] = true
+			rf := replayFile{Property: prop, Job: r.Job.Name, Pkg: r.Job.Pkg, Harness: r.Job.Harness, Label: "", Grid: r.Job.Grid, Params: r.Job.Params, Inputs: modelToStrings(r.Witness)}
+			path := filepath.Join(verifDir, "replays", fmt.Sprintf("%s-%s-witness.json", prop, r.Job.Harness))
+			b, _ := json.MarshalIndent(rf, "", " ")
+			os.WriteFile(path, b, 0o644)
+			_, out := nativeReplay(path)
+			switch {
+			case strings.Contains(out, "VERIF-ASSERT-FAILED") || strings.Contains(out, "VERIF-PANIC") || strings.Contains(out, "VERIF-ASSUME-FAILED"):
+				gDiffMismatch = append(gDiffMismatch, r.Job.Name)
+			case strings.Contains(out, "ok  \t") || strings.Contains(out, "\nok"):
+				gDiffTraces++
+			default:
+				gDiffMismatch = append(gDiffMismatch, r.Job.Name+" (native run failed to build or run)")
+			}
+		}
+	}
 	for _, k := range known {
 		if k.Prop != prop {
 			continue
@@ -470,6 +500,7 @@ func writeEvidence(prop, tier string, seed int64, jobs []*Job, results []*JobRes
 		"states":                        states,
 		"transitions":                   trans,
 		"traces_validated_against_impl": gDiffTraces,
+		"witness_runs_differing_natively": gDiffMismatch,
 		"samples":                       samples,
 		"obligations":                   nOb,
 		"discharged":                    nDis,
@@ -508,6 +539,7 @@ func writeEvidence(prop, tier string, seed int64, jobs []*Job, results []*JobRes
 }
 
 var gDiffTraces int
+var gDiffMismatch []string
 
 func round2(f float64) float64 { return float64(int64(f*100+0.5)) / 100 }
 
